@@ -361,13 +361,17 @@ func runScript(sc *Script) *Outcome {
 		out.Err = err.Error()
 		return out
 	}
+	wt := rt
+	if sc.Cfg.WTms > 0 {
+		wt = time.Duration(sc.Cfg.WTms) * time.Millisecond
+	}
 	udpT := time.Hour
 	if sc.Cfg.UDPms > 0 {
 		udpT = time.Duration(sc.Cfg.UDPms) * time.Millisecond
 	}
 	c := &gortsplib.Client{
 		Scheme: scheme, Host: srv.host, TLSConfig: &tls.Config{InsecureSkipVerify: true}, //nolint:gosec
-		ReadTimeout: rt, WriteTimeout: rt, InitialUDPReadTimeout: udpT,
+		ReadTimeout: rt, WriteTimeout: wt, InitialUDPReadTimeout: udpT, DisableRTCPSenderReports: sc.Cfg.NoSR,
 		AnyPortEnable: sc.Cfg.AnyPort, RequestBackChannels: sc.Cfg.BackCh,
 		OnResponse:        func(*base.Response) { r.seenResp.Add(1) },
 		OnServerRequest:   func(*base.Request) { r.seenReq.Add(1) },
@@ -416,9 +420,31 @@ func runScript(sc *Script) *Outcome {
 	aborted := false
 	for i, call := range sc.Prog {
 		if call.Api == "sleep" {
+			// a playing session with at least one media the client READS from must notice a server that
+			// went silent: the inbound-silence check (every second; UDP: first after InitialUDPReadTimeout)
+			// ends the client with an error after ReadTimeout without anything arriving
+			before := gortsplib.VerifClientSnapshot(r.c)
+			reads := false
+			for mi, ok := range r.setUp {
+				if ok && mi < len(sc.Medias) && !sc.Medias[mi].Back {
+					reads = true
+				}
+			}
 			time.Sleep(time.Duration(call.Ms) * time.Millisecond)
 			cr := CallRes{Api: "sleep", Ms: call.Ms, Class: b01(call.Got)}
 			cr.Quiesced = r.quiesce()
+			if call.Silent && call.Ms >= 2000 && before.State == "play" && !before.Closed && reads && sc.ConcAt == 0 {
+				select {
+				case <-r.waited:
+					if r.waitErr == nil {
+						r.viol("failure-reported", "silence-nil-error", "the server went silent while playing; Wait() returned nil")
+					}
+				case <-time.After(500 * time.Millisecond):
+					r.viol("failure-reported", "silence-not-detected:"+before.Protocol,
+						fmt.Sprintf("playing over %s with %d medias set up (at least one the client reads from), server silent for %d ms (ReadTimeout %v): the client is still running, Wait() blocks for ever",
+							before.Protocol, before.Medias, call.Ms, rt))
+				}
+			}
 			r.snapshot(&cr)
 			out.Calls = append(out.Calls, cr)
 			continue
